@@ -91,6 +91,7 @@ Example C04_state_tie_nonvacuous :
   /\ Frag.st_start_scheduling (encode (init_word 2)) = (encode (start_scheduling (init_word 2)), encode (init_word 2))
   /\ fst (Frag.st_start_scheduling (encode (init_word 2))) <> encode (init_word 2).
 Proof. vm_compute. repeat split; congruence. Qed.
+Print Assumptions C04_state_tie_nonvacuous.
 
 (* ---- the invariant holds in every reachable state ------------------------ *)
 
